@@ -27,6 +27,8 @@ EXPLANATION = ('Theorems C19_* (Coq, all listener tables and all histories) over
                'vm_compute against the real SQLObject on sqlite, step by step: outcome, the ordered trace of signal deliveries (signal, class, '
                'instance id, kwargs as found, listener), post-callback runs and INSERT/UPDATE/DELETE statements, both raw tables, pending '
                'values and the row_update_sig_suppress flag of every instance; for the chain also the receivers each class got by propagation. '
+               'After every operation the harness also reads every column attribute (inherited and own) of every held instance: the oracle '
+               'requires each to be readable and equal to the stored row (overlaid with the pending values of a lazy instance). '
                'The oracle recomputes the documented event sequence of every operation that must succeed and compares it with the observation.')
 TRUSTED_BASE = [
     'Coq 8.16.1 kernel + vm_compute (examples, correspondence); no native_compute',
@@ -589,6 +591,22 @@ def run_plain(case):
                         for i, o in sorted(handles[k].items())])
         return res
 
+    def aview():
+        """every column attribute (inherited and own) of every held instance, read through the class's properties"""
+        res = []
+        for k in range(2):
+            row = []
+            for i, o in sorted(handles[k].items()):
+                vals = []
+                for n in COLS:
+                    try:
+                        vals.append(['v', getattr(o, n)])
+                    except Exception as e:  # noqa
+                        vals.append(['error', '%s: %s' % (type(e).__name__, str(e)[:80])])
+                row.append([i, vals])
+            res.append(row)
+        return res
+
     def do(op):
         t, k = op[0], op[1]
         K = classes[k]
@@ -629,8 +647,12 @@ def run_plain(case):
                 name = type(e).__name__
                 out = ['exn', EXC.get(name, 'other:' + name)]
             signal.setitimer(signal.ITIMER_REAL, 0)
+            steps_trace = list(trace)
             tb = dump()
-            steps.append({'out': out, 'tr': list(trace), 'tables': tb, 'handles': hview()})
+            hv = hview()
+            del trace[:]
+            av = aview()
+            steps.append({'out': out, 'tr': steps_trace, 'tables': tb, 'handles': hv, 'attrs': av, 'read_tr': list(trace)})
             if out == ['exn', 'other:OpTimeout']:
                 break           # the instance's write lock is still held: the rest of the history would hang again
     finally:
@@ -950,6 +972,27 @@ def _effective(script):
     return t
 
 
+def _attrs_ok(s):
+    """every column attribute of every held instance can be read and shows the stored row (a lazy instance: overlaid
+    with the values it holds back); reading delivers no event and writes nothing"""
+    if s.get('read_tr'):
+        return {'what': 'reading column attributes delivered events or wrote', 'actual': s['read_tr']}
+    for k in range(2):
+        rows = dict((r[0], r[1:]) for r in s['tables'][k])
+        pend = dict((h[0], dict((c, v) for c, v in h[1])) for h in s['handles'][k])
+        for rid, vals in s.get('attrs', [[], []])[k]:
+            bad = [[COLS[n], v[1]] for n, v in enumerate(vals) if v[0] == 'error']
+            if bad:
+                return {'what': 'a column attribute of a held instance cannot be read', 'class': k, 'id': rid, 'actual': bad}
+            if rid in rows:
+                want = [pend.get(rid, {}).get(n, rows[rid][n]) for n in range(3)]
+                got = [v[1] for v in vals]
+                if _norm(got) != _norm(want):
+                    return {'what': 'the column attributes of a held instance differ from its row', 'class': k, 'id': rid,
+                            'expected': want, 'actual': got}
+    return None
+
+
 def oracle_plain(c, o):
     tabs = [list(enumerate(l)) for l in c['lis']]
     pre_tables, pre_handles = [[], []], [[], []]
@@ -982,6 +1025,11 @@ def oracle_plain(c, o):
             return f
         if any(h[2] for hs in s['handles'] for h in hs):
             return {'what': 'row_update_sig_suppress is still set on an instance after the operation', 'step': i, 'op': op}
+        f = _attrs_ok(s)
+        if f:
+            f['step'] = i
+            f['op'] = op
+            return f
         pre_tables, pre_handles = s['tables'], s['handles']
         for kk in range(2):
             note_fired(tabs[kk], [e for e in s['tr'] if (e[0] == 'sig' and e[2] == kk) or (e[0] == 'post' and e[3] == kk)], fired[kk])
